@@ -7,7 +7,7 @@ CONSTANTS
   MaxCalls = 2
   Correlated = FALSE
   AnsOpts = {"a0", "a13", "a12", "a1", "a1f", "a1p", "a1t"}
-  CmpReturns = {"T", "F", "P", "d0", "d13", "d1"}
+  CmpReturns = {"T", "F", "P", "d0", "d13", "Et"}
   LeafAns = {}
   LeafCmp = {}
   TableGrades = {}
@@ -17,6 +17,7 @@ CONSTANTS
   TableOnly = {"g1212"}
   OkRecomputed = FALSE
 INVARIANT InvStage
+INVARIANT InvRaisedNoVerdict
 INVARIANT InvGradesInUnit
 INVARIANT InvStaleOk
 INVARIANT InvStripped
